@@ -516,20 +516,6 @@ def rule_direct_solver(rep: Report, repo: Repo):
     for s in own_nodes(outer):
         if isinstance(s, ast.Assign) and isinstance(s.targets[0], ast.Name):
             asg[s.targets[0].id] = s.value
-    def gg_call(v):
-        calls = [n for n in ast.walk(v) if isinstance(n, ast.Call) and call_name(n) == "grouped_greens_functions"]
-        if len(calls) != 1:
-            return None
-        c = calls[0]
-        args = [norm(a) for a in c.args] + [f"{k.arg}={norm(k.value)}" for k in c.keywords]
-        return args
-    right, left = gg_call(asg.get("greens_functions_right", ast.Constant(None))), gg_call(asg.get("greens_functions_left", ast.Constant(None)))
-    rep.check(right == ["h_0.T", "left_eigenvectors", "right_eigenvectors", "conjugate_kernel=True"], R,
-              f"{MOD}::solve_sylvester_direct right-implicit Green's functions use H_0^T with conjugated (left, right) kernels",
-              f"{right}; the right kernel of E - H^T is conj(L), its dual is conj(R)", loc(outer))
-    rep.check(left == ["h_0", "right_eigenvectors", "left_eigenvectors", "conjugate_kernel=False"], R,
-              f"{MOD}::solve_sylvester_direct left-implicit Green's functions use H_0 with (right, left) kernels",
-              f"{left}", loc(outer))
     # grouped_greens_functions: kernel args routed, conj under flag, energy = group representative
     gg = [d for d in nested_defs(outer) if d.name == "grouped_greens_functions"]
     if len(gg) == 1:
@@ -577,87 +563,8 @@ def rule_direct_solver(rep: Report, repo: Repo):
                           + (", conjugated" if flag else ""), f"kernel={kw.get('kernel_vectors')}, left={kw.get('left_kernel_vectors')}", loc(c))
     else:
         raise AnalysisError(R, "grouped_greens_functions not found")
-    # nested solver branches
-    branches = [s for s in f.body if isinstance(s, ast.If)]
-    tests = [norm(s.test) for s in branches]
-    # explicit pairs go to the diagonal solver
-    ok = any(t == "index[0] < len(eigenvalues) and index[1] < len(eigenvalues)" and norm(s.body[0]) == "return explicit_part(Y, index)"
-             for t, s in zip(tests, branches))
-    rep.check(ok, R, f"{MOD}::solve_sylvester_direct explicit block pairs are solved by the diagonal solver", "", loc(f))
-    ok = norm(asg.get("explicit_part", ast.Constant(None))) == "solve_sylvester_diagonal(eigenvalues, atol=eigenvalue_atol)"
-    rep.check(ok, R, f"{MOD}::solve_sylvester_direct explicit part = solve_sylvester_diagonal(eigenvalues, atol=eigenvalue_atol)", "", loc(outer))
-    from .resolve import resolved, run_block
-
-    def parse_term(e):
-        """-> (sign, structure) of an implicit-branch result expression (names already resolved)."""
-        if isinstance(e, ast.UnaryOp) and isinstance(e.op, ast.USub):
-            sg, t = parse_term(e.operand)
-            return -sg, t
-        if isinstance(e, ast.Name) and e.id == "Y":
-            return 1, ("Y",)
-        if isinstance(e, ast.BinOp) and isinstance(e.op, ast.MatMult):
-            if norm(e.left) == "projector":
-                sg, t = parse_term(e.right)
-                return sg, ("P@", t)
-            if norm(e.right) == "projector":
-                sg, t = parse_term(e.left)
-                return sg, ("@P", t)
-        if isinstance(e, ast.Call) and call_name(e) in ("np.column_stack", "np.vstack") and len(e.args) == 1 \
-                and isinstance(e.args[0], (ast.ListComp, ast.GeneratorExp)) and len(e.args[0].generators) == 1:
-            comp = e.args[0]
-            gen = comp.generators[0]
-            if isinstance(gen.iter, ast.Call) and call_name(gen.iter) == "zip" and len(gen.iter.args) == 2 \
-                    and isinstance(gen.target, ast.Tuple) and len(gen.target.elts) == 2 and not gen.ifs:
-                gfn, vecn = (norm(x) for x in gen.target.elts)
-                fam, src = gen.iter.args
-                elt, sg = comp.elt, 1
-                if isinstance(elt, ast.UnaryOp) and isinstance(elt.op, ast.USub):
-                    elt, sg = elt.operand, -1
-                if isinstance(elt, ast.Call) and norm(elt.func) == gfn and len(elt.args) == 1:
-                    arg = elt.args[0]
-                    if isinstance(arg, ast.UnaryOp) and isinstance(arg.op, ast.USub):
-                        arg, sg = arg.operand, -sg
-                    if norm(arg) == vecn and isinstance(fam, ast.Subscript):
-                        if isinstance(src, ast.Attribute) and src.attr == "T":
-                            axis, inner = "columns", src.value
-                        else:
-                            axis, inner = "rows", src
-                        stack = {"np.column_stack": "columns", "np.vstack": "rows"}[call_name(e)]
-                        s2, t = parse_term(inner)
-                        return sg * s2, ("G", norm(fam.value), norm(fam.slice), axis, stack, t)
-        raise AnalysisError(R, f"implicit-branch expression not understood: `{norm(e)[:100]}`")
-
-    def branch_term(stmts):
-        env = run_block([x for x in stmts if not isinstance(x, ast.If)])
-        rets = [x for x in stmts if isinstance(x, ast.Return)]
-        if len(rets) != 1:
-            raise AnalysisError(R, "implicit branch without a single return")
-        return parse_term(resolved(rets[0].value, env))
-
-    li = [s for s in branches if norm(s.test) in ("index[0] == len(eigenvalues)", "len(eigenvalues) == index[0]")]
-    if len(li) != 1:
-        rep.fail(R, f"{MOD}::solve_sylvester_direct left-implicit branch not found", str(tests), loc(f))
-    else:
-        got = branch_term(li[0].body)
-        want = (-1, ("P@", ("G", "greens_functions_left", "index[1]", "columns", "columns", ("P@", ("Y",)))))
-        inst = f"{MOD}::solve_sylvester_direct left-implicit: T = -P [G_b(H_0) (P Y)_b]_b  (columns, negated, projected before and after)"
-        if got == want:
-            rep.ok(R, inst, str(got), loc(li[0]))
-        else:
-            rep.fail(R, f"{MOD}::solve_sylvester_direct left-implicit branch computes {got}", f"required {want}: "
-                     "(H_B - E_b) T_b = Y_b  =>  T_b = -G_b(H_0) Y_b, column by column, inside range(P)", loc(li[0]))
-    tail = [x for x in f.body if not isinstance(x, ast.If) and not (isinstance(x, ast.Expr) and isinstance(x.value, ast.Constant))]
-    got = branch_term(tail)
-    want = (1, ("@P", ("G", "greens_functions_right", "index[0]", "rows", "rows", ("@P", ("Y",)))))
-    inst = f"{MOD}::solve_sylvester_direct right-implicit: T = [G_a(H_0^T) (Y P)_a]_a P  (rows, not negated, projected before and after)"
-    if got == want:
-        rep.ok(R, inst, str(got), loc(f))
-    else:
-        rep.fail(R, f"{MOD}::solve_sylvester_direct right-implicit branch computes {got}", f"required {want}: "
-                 "T_a (E_a - H_B) = Y_a  =>  T_a^T = G_a(H_0^T) Y_a^T, row by row, inside range(P)", loc(f))
-    ev = norm(asg.get("eigenvalues", ast.Constant(None)))
-    rep.check(ev == "[np.diag(Dagger(left) @ h_0 @ right) for right, left in zip(right_eigenvectors, left_eigenvectors, strict=True)]", R,
-              f"{MOD}::solve_sylvester_direct explicit energies are diag(L_i^H H_0 R_i)", ev, loc(outer))
+    from .e7b import rule_direct_wiring
+    rule_direct_wiring(rep, repo)
 
 
 def rule_greens_function(rep: Report, repo: Repo):
@@ -867,42 +774,5 @@ def rule_kpm_structure(rep: Report, repo: Repo):
     allh = [norm(n.value) for n in ast.walk(rs) if isinstance(n, ast.Assign) and norm(n.targets[0]) == "rescaled_h"]
     ok = ok and all(v.endswith("/ a") and "- b *" in v for v in allh) and len(allh) == 2
     rep.check(ok, R, "kpm::rescale returns (H - b)/a with a = bandwidth/(2 - eps), b = band centre", str(allh), repo.loc("kpm", rs))
-    # -- solve_sylvester_KPM wiring ---------------------------------------------------------------------
-    f = repo.find(f"{MOD}::solve_sylvester_KPM", R)
-    loc = lambda n: repo.loc(MOD, n)
-    fa = {}
-    for n in own_nodes(f):
-        if isinstance(n, ast.Assign):
-            fa.setdefault(norm(n.targets[0]), norm(n.value))  # first assignment (later ones only change the storage format)
-    ok = fa.get("eigs_rescaled") == "[(eig - b) / a for eig in eigs[:-1]]" and fa.get("(h_rescaled, (a, b))", "").startswith("rescale(h_0,")
-    rep.check(ok, R, f"{MOD}::solve_sylvester_KPM rescales the explicit energies with the same (a, b) as the Hamiltonian",
-              str(fa.get("eigs_rescaled")), loc(f))
-    rep.check(fa.get("h_rescaled_T") in ("h_rescaled.T",), R, f"{MOD}::solve_sylvester_KPM applies the Green's function of H^T (rows of Y are solved as columns)",
-              str(fa.get("h_rescaled_T")), loc(f))
-    rep.check(fa.get("kpm_projector") == "ComplementProjector(np.hstack(subspace_eigenvectors))", R,
-              f"{MOD}::solve_sylvester_KPM projects out all explicit and auxiliary vectors", str(fa.get("kpm_projector")), loc(f))
-    inner = [d for d in nested_defs(f) if d.name == "solve_sylvester_kpm"]
-    ok = False
-    if len(inner) == 1:
-        ia = {norm(n.targets[0]): norm(n.value) for n in own_nodes(inner[0]) if isinstance(n, ast.Assign)}
-        r = [n for n in own_nodes(inner[0]) if isinstance(n, ast.Return)]
-        gcalls = [c for c in ast.walk(inner[0]) if isinstance(c, ast.Call) and call_name(c) == "greens_function"]
-        comp = [c for c in ast.walk(inner[0]) if isinstance(c, ast.ListComp)]
-        ok = ia.get("Y_KPM") == "Y @ kpm_projector / a" and len(r) == 1 and call_name(r[0].value) == "np.vstack" and len(gcalls) == 1 \
-            and [norm(a) for a in gcalls[0].args[:3]] == ["h_rescaled_T", "energy", "vector"] and len(comp) == 1 \
-            and norm(comp[0].generators[0].iter) == "zip(eigs_rescaled[index[0]], Y_KPM)" and norm(comp[0].generators[0].target) == "(energy, vector)"
-    rep.check(ok, R, f"{MOD}::solve_sylvester_KPM row a of the solution = G(E_a)(H^T) applied to row a of Y P / a (energies of block index[0])", "", loc(f))
-    outer = [d for d in nested_defs(f) if d.name == "solve_sylvester"]
-    ok = False
-    if len(outer) == 1:
-        ifs = [s for s in outer[0].body if isinstance(s, ast.If)]
-        texts = [(norm(s.test), norm(s.body[0])) for s in ifs]
-        tail = norm(outer[0].body[-1])
-        ok = ("Y is zero", "return zero") in texts and \
-            ("index[1] == len(eigs) - 1", "return solve_sylvester_kpm(Y, index) + solve_sylvester_explicit(Y, index)") in texts and \
-            tail == "return solve_sylvester_explicit(Y, index)"
-    rep.check(ok, R, f"{MOD}::solve_sylvester_KPM implicit column block = KPM part + explicit auxiliary part; other blocks by the diagonal solver", "", loc(f))
-    rep.check(fa.get("solve_sylvester_explicit") == "solve_sylvester_diagonal(eigs, vecs_implicit, atol=solver_options.get('atol'))", R,
-              f"{MOD}::solve_sylvester_KPM explicit part uses the diagonal solver with the auxiliary vectors", str(fa.get("solve_sylvester_explicit")), loc(f))
-    rep.check(fa.get("eigs") == "[(Dagger(eigenvectors) @ h_0 @ eigenvectors).diagonal() for eigenvectors in subspace_eigenvectors]", R,
-              f"{MOD}::solve_sylvester_KPM energies are diag(V_i^H H_0 V_i)", str(fa.get("eigs")), loc(f))
+    from .e7b import rule_kpm_wiring
+    rule_kpm_wiring(rep, repo)
